@@ -15,7 +15,7 @@ MANIFEST = dict(
          '(every send accepts any part of what is offered), closers, the finalizer\'s stop(flushing) and the write timer (one action per atomic step), by an inductive invariant with one generated lemma per action. '
          'The model is tied to /repo on every run: sync-operation lists regenerated from the source (T-gen, Netpoll.Tie.ReadFlush by decide) and trace conformance of the REAL code under a controlled scheduler '
          'with a scripted kernel (connection.flush\'s sendmsg call site renamed by tools/instrument; the poller transcription calls the same script; accepted bytes really travel over a socketpair and are counted at the peer; scenarios include output buffers with more non-empty nodes than one GetBytes/sendmsg vector holds (barriercap = 32), where the kernel accepts everything it was offered while part of the buffer has not been offered yet), '
-         'a second concurrent flusher, closers, hang-up and the write timer as a scheduling choice; the Lean spec oracle judges every trace (a Flush/Write ISSUED after a closer had won the close must return ErrConnClosed - ErrConcurrentAccess is accepted from the single flusher only when the close began while its call was under way).',
+         'a second concurrent flusher, closers, hang-up and the write timer as a scheduling choice; scenarios in which the flusher\'s calls are made inside the OnRequest handler (inh=1: the real onProcess task holds the processing lock, so a concurrent Close() cannot run the close callbacks itself) and kernel scripts ending in a socket that stays full (z: EAGAIN for ever, no write event any more - only a close or the timer can end the Flush); the Lean spec oracle judges every trace (a Flush/Write ISSUED after a closer had won the close must return ErrConnClosed - ErrConcurrentAccess is accepted from the single flusher only when the close began while its call was under way).',
     note='Trusted: Lean kernel; axioms propext/Classical.choice/Quot.sound; tools/extract + tools/instrument; the scheduler harness and npdriver. Correspondence is sampling over schedules and kernel scripts. '
          'KNOWN FINDINGS: D9 (a Flush returning nil with unsent bytes after an earlier ErrWriteTimeout: stale nil in writeTrigger) and D9b (any Flush/Write issued after an ErrWriteTimeout may run concurrently with a poller write '
          'event that still owns the output buffer: bytes sent twice, Skip error, negative length, panic); the generated scenarios never issue a call after a write timeout, the corpus probes do, and exactly those patterns are not counted. '
